@@ -69,6 +69,22 @@ def gen_history(r, forced=None):
     ops = []
     n = r.randrange(3, 10)
     names = list(var)
+    if forced in ("created-module", "created-module-resaved") and len(mods) >= 1:
+        # a module that does not exist yet when the session starts and is created later (the watcher does not see that;
+        # the next change of a watched file triggers the rebuild)
+        late = mods[-1] + ".ts"
+        importers = [f for f in names if f != late and ('"./%s"' % mods[-1]) in files[f]]
+        created = var[late][0][0]
+        del files[late]
+        ops = [["rebuild"], ["update", late, created]]
+        if forced == "created-module-resaved":
+            for f in importers: ops.append(["update", f, files[f]])
+        else:
+            other = [f for f in names if f != late and f not in importers]
+            if other: ops.append(["update", other[0], r.choice([v for v in var[other[0]] if v[1] == "valid"])[0]])
+        ops.append(["rebuild"])
+        kinds[(late, created)] = "valid"
+        n = r.randrange(0, 4)
     if forced == "broken-then-rebuild":
         f = r.choice(names)
         t = [v for v in var[f] if v[1] == "broken"][0]
@@ -94,6 +110,24 @@ def gen_history(r, forced=None):
         for t, k in vs:
             kinds[(f, t)] = k
     return files, ops, kinds
+
+
+def frozen_importer(files, ops_before):
+    """at this rebuild some file was created during the session after a file that imports it was last read by the session"""
+    disk = dict(files)
+    last_touch = {f: -1 for f in files}          # step at which the session last parsed the file (initial read = before step 0)
+    created_at = {}
+    for k, op in enumerate(ops_before):
+        if op[0] != "update": continue
+        if op[1] not in disk: created_at[op[1]] = k
+        disk[op[1]] = op[2]
+        last_touch[op[1]] = k
+    for f, k in created_at.items():
+        base = f[:-3]
+        for g, text in disk.items():
+            if g != f and ('"./%s"' % base) in text and last_touch.get(g, -1) < k:
+                return True
+    return False
 
 
 def strip_result(x):
@@ -122,7 +156,7 @@ def check(run):
     n = 240 if quick else 5000
     hist = []
     for i in range(n):
-        forced = {0: "broken-then-rebuild", 1: "comment-only", 2: "shifted-diagnostic"}.get(i % 6)
+        forced = {0: "broken-then-rebuild", 1: "comment-only", 2: "shifted-diagnostic", 3: "created-module", 4: "created-module-resaved"}.get(i % 6)
         hist.append(gen_history(r, forced))
     known = common.load_known("C14")
     for kf in known:
@@ -134,7 +168,9 @@ def check(run):
     rebuilds = differing_outcomes = 0
     outcome_kinds = collections.Counter()
     op_hist = collections.Counter()
-    fixed_returned = []
+    reproduced = []
+    listed = {k["class"] for k in known if k.get("kind") == "known"}
+    in_known = collections.Counter()
     for i, ((files, ops, kinds), rr) in enumerate(zip(hist, res)):
         desc = {"files": files, "ops": ops}
         if "steps" not in rr:
@@ -156,8 +192,11 @@ def check(run):
             if s != f:
                 what = "code" if (s.get("code") != f.get("code")) else "diagnostics"
                 if i >= n:
-                    fixed_returned.append(known[i - n])
-                fails.append(("rebuild-differs-from-fresh-process", dict(desc, step=k, differs_in=what, session=s, fresh=f)))
+                    reproduced.append(known[i - n])
+                elif "import_resolution_frozen_in_cached_importer" in listed and frozen_importer(files, ops[:k]):
+                    in_known["import_resolution_frozen_in_cached_importer"] += 1
+                else:
+                    fails.append(("rebuild-differs-from-fresh-process", dict(desc, step=k, differs_in=what, session=s, fresh=f)))
                 break
         differing_outcomes += 1 if len(seen) > 1 else 0
         exprs.append(conform_expr(files, ops, rr["steps"], kinds))
@@ -180,7 +219,8 @@ def check(run):
         "cases": len(exprs), "disagreements": len(disagree),
         "distribution": {"steps": dict(op_hist), "fresh_outcomes": dict(outcome_kinds)}}
     cov["spec_checks"]["every rebuild equals the fresh-process answer"] = {
-        "histories": len(hist), "rebuilds": rebuilds, "failures": dict(collections.Counter(k for k, _ in fails))}
+        "histories": len(hist), "rebuilds": rebuilds, "failures": dict(collections.Counter(k for k, _ in fails)),
+        "failures inside listed classes": dict(in_known)}
     cov["samples"] = [{"files": hist[1][0], "ops": hist[1][1]}]
     cov["trusted_base"] = [
         "Coq 8.16.1 kernel, vm_compute; no axioms",
@@ -191,8 +231,11 @@ def check(run):
         "diagnostic sink) — ts-node/bundler.ts itself (chokidar, ts.resolveModuleName, its resolvedCache) is not executed",
         "a fresh process is a new thread (the cache is thread_local); the set of file names never changes during a history, as in watch mode"]
     for kf in known:
-        if kf.get("kind") == "fixed" and kf in fixed_returned:
+        if kf.get("kind") == "fixed" and kf in reproduced:
             run.violation("fixed-finding-returned-" + kf["class"], {"witness": kf["witness"]})
+        if kf.get("kind") == "known" and kf in reproduced:
+            run.known("class=%s %s" % (kf["class"], kf["what"]))
+            cov["known_findings_reproduced"].append(kf["class"])
     if not ok:
         run.violation("proof", {"what": run.proof_broken, "theorems": THEOREMS}, no_input=not fails)
     for i, (kind, payload) in enumerate(fails[:4]):
